@@ -42,7 +42,7 @@ for k in known:
 out.append('\n## 7. Seeded changes (realistic breakage produced by sub-agents that saw only the property text and a scratch worktree)\n')
 out.append('Each change compiles, passes the 427-test baseline, breaks the property only under something specific and comes with a demonstration that fails with it and passes without it '
            '(`seeded/<id>/{patch.diff, demo.py, notes.md, meta.json}`). `tools/try_seed.py <property> <dir>` applies a patch to /repo, requires the demo to exit 1 and the quick check to print '
-           'VIOLATION, restores the tree and requires the demo to exit 0. "missed at first" entries led to a strengthening of the generator or of an oracle, described in the entry; all 36 are '
+           'VIOLATION, restores the tree and requires the demo to exit 0. "missed at first" entries led to a strengthening of the generator or of an oracle, described in the entry; all of them are '
            'caught by the quick checks as committed.\n')
 out.append('| change | property | how it is caught |')
 out.append('|---|---|---|')
